@@ -171,4 +171,34 @@ theorem strip_id {t : List Char} (h1 : ∀ c, t.head? = some c → ¬ White c) (
     simpa using this
   rw [e2, List.reverse_reverse]
 
+theorem dropWhile_all_white {l : List Char} (h : ∀ c ∈ l, White c) : l.dropWhile isSpace = [] := by
+  have := dropWhile_append (l := l) (r := []) h (by simp)
+  simpa using this
+
+/-- `Stripped` determines its result: it is `strip s` -/
+theorem stripped_unique {s t : List Char} (h : Stripped s t) : t = strip s := by
+  obtain ⟨l, r, rfl, hl, hr, hh, hlast⟩ := h
+  unfold strip
+  cases t with
+  | nil =>
+    have : ∀ c ∈ l ++ [] ++ r, White c := by
+      intro c hc
+      simp only [List.append_nil, List.mem_append] at hc
+      rcases hc with hc | hc
+      · exact hl c hc
+      · exact hr c hc
+    rw [dropWhile_all_white this]; rfl
+  | cons a t =>
+    have e1 : (l ++ (a :: t) ++ r).dropWhile isSpace = (a :: t) ++ r := by
+      rw [List.append_assoc]
+      exact dropWhile_append hl (by intro c hc; simp at hc; subst hc; exact hh a rfl)
+    rw [e1, List.reverse_append]
+    have e2 : (r.reverse ++ (a :: t).reverse).dropWhile isSpace = (a :: t).reverse := by
+      apply dropWhile_append
+      · intro c hc; exact hr c (List.mem_reverse.mp hc)
+      · intro c hc
+        rw [List.head?_reverse] at hc
+        exact hlast c hc
+    rw [e2, List.reverse_reverse]
+
 end I18n.Date
